@@ -1,7 +1,8 @@
 """C11 — hostile images: the read path always terminates.
-Proof: AdfProps/C11.lean — the model is a total Lean function: every walk of the read path is a structural or
-measure-decreasing recursion (kernel-checked termination), with explicit bounds (chain length <= blocks of the volume,
-listing budget one entry per block, 512 levels, RDB lists <= 512 blocks) that mirror the bounds in the C code.
+Proof: AdfProps/C11.lean — work bounds: the number of device reads of name lookup, of (recursive) listings in hash and
+cache mode, of the bitmap loader and of the extension walk is bounded by a function of the volume size only, for every
+image, state and fault schedule (potential-function argument over the fuel-bounded walks, which mirror the bounds in the
+C code: chain length <= blocks of the volume, listing budget, 512 levels, RDB lists <= 512 blocks).
 Tie: well-formed images whose chain / next / child pointers are redirected to the block itself, an ancestor or any
 other metadata block (singly or in combination), and corrupted RDB lists; C under a per-operation read limit
 (4 x blocks + request/488 + 64) and a wall-clock limit, and the model; outputs must agree and no limit may be hit."""
